@@ -337,6 +337,8 @@ package tree
 //@ func (*tree.Tree).Delete
 //@   flag treeop
 //@   requires t != nil
+//@   loop 1
+//@     complete [all_iterations_no_early_exit]
 // Clone / copyTreeRecur / SubTree (property C15): every node and branch below the starting point is copied into
 // new objects (CopyNode / CopyEdge, verified above) hung under the copy of its parent; nothing that existed before
 // the call is written, except the bit positions refreshed by the copy's UpdateTipIndex
@@ -347,6 +349,8 @@ package tree
 //@   call (*tree.Tree).ConnectNodes [the_copy_hangs_under_the_copy_of_its_parent_in_the_new_tree] a0 == copytree && a1 == copynode && a2 == copychild && fresh(copychild)
 //@   call (*tree.Tree).CopyEdge [the_new_branch_receives_the_attributes_of_the_original] a1 == edge && a2 == copyedge && fresh(copyedge)
 //@   call (*tree.Tree).copyTreeRecur [descends_through_every_other_branch_of_the_child_under_its_copy] a1 == copytree && a2 == copychild && a3 == child && a4 == e && e != edge
+//@   loop 1
+//@     complete [all_iterations_no_early_exit]
 
 //@ func (*tree.Tree).Clone
 //@   flag noframe
@@ -355,6 +359,8 @@ package tree
 //@   call (*tree.Tree).copyTreeRecur [every_root_branch_is_copied_under_the_copy_of_the_root_into_the_new_tree] a1 == copy && a2 == root && a3 == t.root && a4 == e && fresh(root) && fresh(copy) && copy != t
 //@   call (*tree.Tree).UpdateTipIndex [the_copy_gets_its_own_name_index] a0 == copy && t.tipIndex != nil
 //@   ensures [fresh_tree] result != nil && fresh(result)
+//@   loop 1
+//@     complete [all_iterations_no_early_exit]
 
 //@ func (*tree.Tree).SubTree
 //@   flag noframe
@@ -363,6 +369,8 @@ package tree
 //@   call (*tree.Tree).copyTreeRecur [only_branches_leaving_the_node_downwards_are_followed] a1 == subtree && a2 == root && a3 == n && a4 == e && e.left == n && fresh(root) && fresh(subtree)
 //@   call (*tree.Tree).ReinitIndexes [the_subtree_gets_its_own_indexes] a0 == subtree
 //@   ensures [fresh_tree] result != nil && fresh(result)
+//@   loop 1
+//@     complete [all_iterations_no_early_exit]
 
 // Merge (property C15): only for two rooted trees with non-empty, disjoint name indexes; a new root gets the two old
 // roots as its children, in that order, and becomes the root; indexes are rebuilt
@@ -504,6 +512,12 @@ package tree
 //@   call (*bytes.Buffer).WriteString@L3 [a_branch_comment_is_written_between_brackets_from_the_branch_s_own_list] a0 == newick && (a1 == "[" || a1 == "]" || (exists k int :: 0 <= k && k < len(n.br[i].comment) && a1 == n.br[i].comment[k]))
 //@   call strconv.FormatFloat [plain_decimal_shortest_representation_of_a_value_stored_on_the_branch] a1 == 102 && a2 == -1 && a3 == 64 && (a0 == n.br[i].support || a0 == n.br[i].pvalue || a0 == n.br[i].length)
 //@   call (*tree.Node).Newick [children_are_written_with_this_node_as_parent_into_the_same_buffer] a0 == child && a1 == n && a2 == newick && child != parent
+//@   loop 1
+//@     complete [all_iterations_no_early_exit]
+//@   loop 2
+//@     complete [all_iterations_no_early_exit]
+//@   loop 3
+//@     complete [all_iterations_no_early_exit]
 // order of the pieces of one child (property C01): [","] child-text [support ["/"pvalue]] {node comments} [":" length] {branch comments}
 //@ define nwsup(e *Edge, c *Node) int = (e.support != -1.0 && c.name == "") ? (e.pvalue != -1.0 ? 2 : 1) : 0
 //@   call (*tree.Node).Newick@L1 [the_child_s_own_text_comes_first_after_a_comma_for_every_child_but_the_first] ghost(ncalls_FormatFloat) == atHead(ghost(ncalls_FormatFloat)) && ghost(ncalls_WriteString) == atHead(ghost(ncalls_WriteString)) + (nbchild > 0 ? 1 : 0)
@@ -553,6 +567,8 @@ package tree
 //@   loop 1
 //@     complete [all_iterations_no_early_exit]
 //@     step [the_branch_itself_contributes_nothing] n == atHead(cur) ==> e.hashcodeleft == atHead(e.hashcodeleft) && e.ntaxleft == atHead(e.ntaxleft)
+//@   loop 2
+//@     complete [all_iterations_no_early_exit]
 
 // UpdateBitSet / fillRightBitSet (property C04): the bitset of a branch is cleared when the walk reaches it; at a tip
 // branch the tip's bit is set in the bitset of every branch on the path from the root branch down to it (the list
@@ -568,11 +584,15 @@ package tree
 //@   loop 2
 //@     complete [all_iterations_no_early_exit]
 //@     invariant [path_length_restored_after_each_child] len(*rightEdges) == old(len(*rightEdges)) && rightEdges != nil && t != nil && currentEdge != nil && currentEdge.right != nil
+//@   loop 1
+//@     complete [all_iterations_no_early_exit]
 
 //@ func (*tree.Tree).UpdateBitSet
 //@   flag noframe
 //@   requires t != nil && t.root != nil
 //@   call (*tree.Tree).fillRightBitSet [every_root_branch_starts_a_path_of_its_own] a1 == e && len(rightedges) == 1 && rightedges[0] == e
+//@   loop 1
+//@     complete [all_iterations_no_early_exit]
 
 // ClearBitSets / clearBitSetsRecur (property C04): every branch below the starting node gets a bitset of its own,
 // created for the current number of indexed tips, and zeroed hash sums, before the walk descends through it
@@ -703,6 +723,14 @@ package tree
 //@   call (*tree.Edge).SetLength [moved_branch_keeps_its_length_new_branch_has_length_zero] (a0.left == current && a1 == 0.0) || (a0.left != current && a1 == e.length)
 //@   call (*tree.Edge).SetSupport [moved_branch_keeps_its_support_new_branch_has_none] (a0.left == current && a1 == -1.0) || (a0.left != current && a1 == e.support)
 //@   call (*tree.Edge).SetPValue [moved_branch_keeps_its_pvalue_new_branch_has_none] (a0.left == current && a1 == -1.0) || (a0.left != current && a1 == e.pvalue)
+//@   loop 1
+//@     complete [all_iterations_no_early_exit]
+//@   loop 2
+//@     complete [all_iterations_no_early_exit]
+//@   loop 3
+//@     complete [all_iterations_no_early_exit]
+//@   loop 4
+//@     complete [all_iterations_no_early_exit]
 
 //@ define lowsupport(e *Edge, s float64) bool = e.support != -1 && e.support < s
 //@ define shortbranch(e *Edge, l float64) bool = e.length <= l
@@ -792,6 +820,8 @@ package tree
 //@   loop 2
 //@     complete [all_iterations_no_early_exit]
 //@     invariant [tips_so_far_follow_the_sorted_names] len(v) == rangeindex + 1 && (forall k int :: {v[k]} 0 <= k && k < len(v) ==> v[k] == (has(tb.tips, names[k]) ? tb.tips[names[k]] : nil))
+//@   loop 1
+//@     complete [all_iterations_no_early_exit]
 
 //@ func (*tree.TipBag).AddTip
 //@   requires tb != nil && tb.tips != nil
@@ -863,6 +893,14 @@ package tree
 //@   loop 6
 //@     complete [all_iterations_no_early_exit]
 //@     step [entry_divided_by_the_number_of_trees] matrix[i][j] == atHead(matrix[i][j]) / real(ntrees)
+//@   loop 1
+//@     complete [all_iterations_no_early_exit]
+//@   loop 2
+//@     complete [all_iterations_no_early_exit]
+//@   loop 3
+//@     complete [all_iterations_no_early_exit]
+//@   loop 5
+//@     complete [all_iterations_no_early_exit]
 
 // ---------------------------------------------------------------------------
 // Rename (property C18): the result is a function of the name index and the
@@ -874,6 +912,8 @@ package tree
 //@   allocates nodeIndex, map[string]*Node, []*Node, iface
 //@   assigns nothing
 //@   ensures [index_maps_each_name_to_the_node_carrying_it] result1 == nil ==> result0 != nil && result0.index != nil && (forall s string :: {has(result0.index, s)} has(result0.index, s) ==> result0.index[s] != nil && result0.index[s].name == s)
+//@   loop 1
+//@     complete [all_iterations_no_early_exit]
 
 // SortedTips: the tips (Tips) sorted by name in fresh storage (sort.Slice: trusted permutation)
 // SortedTips (property C18): the list of this tree's tips, reordered in place by a comparison of the names of the two
@@ -906,6 +946,8 @@ package tree
 //@     complete [all_iterations_no_early_exit]
 //@     invariant [registered_so_far] t.tipIndex != nil && (forall k int :: {tips[k]} 0 <= k && k <= rangeindex ==> has(t.tipIndex, tips[k].name) && t.tipIndex[tips[k].name] == tips[k] && tips[k].tipid == k)
 //@     invariant [tips_live] forall k int :: {tips[k]} 0 <= k && k < len(tips) ==> tips[k] != nil && allocated(tips[k])
+//@   loop 1
+//@     complete [all_iterations_no_early_exit]
 
 //@ func (*tree.Tree).Rename
 //@   flag noframe
@@ -1133,6 +1175,8 @@ package tree
 //@   call (*tree.Tree).Reroot [the_new_root_is_a_node_of_this_tree_with_exactly_three_neighbours] a0 == t && a1 == n && len(n.neigh) == 3 && ghost(ncalls_Reroot) == old(ghost(ncalls_Reroot))
 //@   ensures [no_inner_node_with_three_neighbours_is_an_error] ghost(ncalls_Reroot) == old(ghost(ncalls_Reroot)) ==> result != nil
 //@   return [the_verdict_of_the_rerooting_is_returned] result == err
+//@   loop 1
+//@     complete [all_iterations_no_early_exit]
 
 //@ define edgeok(e *Edge) bool = allocated(e) && allocated(e.left) && allocated(e.right) && e.left != e.right && e.length >= 0.0
 
@@ -1319,6 +1363,8 @@ package tree
 //@   loop 1
 //@     complete [all_iterations_no_early_exit]
 //@     invariant [names_collected] namemap != nil && (forall k int :: {names[k]} 0 <= k && k <= rangeindex ==> has(namemap, names[k]))
+//@   loop 2
+//@     complete [all_iterations_no_early_exit]
 
 // ---------------------------------------------------------------------------
 // Branch enumerations (property C03): InternalEdges lists inner branches only,
@@ -1509,6 +1555,8 @@ package tree
 //@   ensures [every_branch_keeps_its_two_ends] forall e *Edge :: {e.left} {e.right} sameends(e)
 //@   ensures [lengths_supports_and_adjacency_are_not_written] forall e *Edge :: {e.length} {e.support} allocated(e) ==> e.length == old(e.length) && e.support == old(e.support) && e.pvalue == old(e.pvalue)
 //@   ensures [adjacency_is_not_written] forall m *Node :: {m.neigh} {m.br} allocated(m) ==> m.neigh == old(m.neigh) && m.br == old(m.br) && m.name == old(m.name)
+//@   loop 1
+//@     complete [all_iterations_no_early_exit]
 
 // Random rotation of the neighbours of a node (properties C05, C20): pairs (neighbour, branch) stay together,
 // every slot ends up holding one of the original pairs; the draw is the Fisher-Yates draw rand.Intn(i+1)
@@ -1532,6 +1580,8 @@ package tree
 //@   call math/rand.Perm [one_permutation_of_all_the_names] a0 == len(names)
 //@   call (*tree.Node).SetName [tip_i_gets_the_name_at_the_position_drawn_for_i] a0 == tips[rangeindex + 1] && a1 == names[p] && 0 <= p && p < len(names)
 //@   ensures [indexes_rebuilt_once] ghost(ncalls_ReinitIndexes) == old(ghost(ncalls_ReinitIndexes)) + 1 && ghost(ncalls_Perm) == old(ghost(ncalls_Perm)) + 1
+//@   loop 1
+//@     complete [all_iterations_no_early_exit]
 
 // LeastCommonAncestorUnrooted (property C05): the group is the set of given names that are tips of the tree; the walk
 // starts from the neighbour of the first tip, in traversal order, that is not in the group; an empty group or a group
@@ -1557,6 +1607,8 @@ package tree
 //@   call (*tree.Edge).SetLength [each_half_gets_half_of_the_length_of_the_separating_branch] a1 == rootedge.length / 2.0 && rootedge.length != -1.0
 //@   call (*tree.Edge).SetSupport [each_half_carries_the_support_of_the_separating_branch] a1 == rootedge.support
 //@   call (*tree.Tree).reroot_nocheck [both_halves_were_given_the_support_and_the_length_when_there_is_one] !removeoutgroup ==> ghost(ncalls_SetSupport) == old(ghost(ncalls_SetSupport)) + 2 && (rootedge.length != -1.0 ==> ghost(ncalls_SetLength) == old(ghost(ncalls_SetLength)) + 2)
+//@   loop 3
+//@     complete [all_iterations_no_early_exit]
 
 // Nodes / nodesRecur, Tips / tipsRecur (properties C03, C04): the node reached is listed first, then the walk goes to every
 // neighbour other than the one it came from; only the list's own storage is written
@@ -1624,6 +1676,10 @@ package tree
 //@   assigns nothing
 //@   ensures [entries] forall k int :: {result[k]} 0 <= k && k < len(result) ==> result[k] != nil
 //@   ensures [fresh_storage] fresh_arr(result)
+//@   loop 1
+//@     complete [all_iterations_no_early_exit]
+//@   loop 2
+//@     complete [all_iterations_no_early_exit]
 
 //@ define inwindow(c int, lo int, hi int) bool = (c > lo && c <= hi) || c == hi
 //@ define eiinfo(kv *hashmap.KeyValue) *EdgeIndexInfo = cast(iref(kv.Value), "*EdgeIndexInfo")
@@ -1674,6 +1730,8 @@ package tree
 //@   call (*tree.Node).SetName [i_th_star_tip_takes_the_name_under_the_i_th_tip_branch] a0 == te.right && a1 == edges[rangeindex + 1].right.name
 //@   call (*tree.Edge).SetLength [i_th_star_branch_takes_the_length_of_the_i_th_tip_branch] a0 == te && a1 == edges[rangeindex + 1].length
 //@   call (*tree.Tree).ReinitIndexes [the_star_is_indexed] a0 == star
+//@   loop 1
+//@     complete [all_iterations_no_early_exit]
 //@ func (*tree.Tree).AllTipNames
 //@   requires t != nil
 //@   allocates []string, []*Node
@@ -1721,8 +1779,23 @@ package tree
 //@   call (*tree.EdgeIndex).AddEdgeCount [every_branch_of_every_tree_is_counted_once] a1 == e
 //@   call (*tree.EdgeIndex).Edges [splits_kept_are_those_counted_more_than_cutoff_times_n_or_in_every_tree] a1 == toint(cutoff * real(nbtrees)) && a2 == nbtrees
 //@   call (*tree.Tree).AddBipartition [kept_split_carries_mean_length_and_frequency] a3 == real(bs.val.Len) / real(bs.val.Count) && a4 == real(bs.val.Count) / real(nbtrees)
+//@   call (*tree.Edge).SetLength [a_tip_branch_of_the_consensus_carries_the_mean_of_its_lengths] a1 == real(bs.val.Len) / real(bs.val.Count) && a0 == t.br[0] && len(names) == 1
+//@   call (*tree.Tree).ExistsTip [a_later_tree_with_another_number_of_tips_was_already_rejected] len(names) == nbtips
+//@   call (*tree.Tree).AllTipNames [the_names_compared_are_those_of_the_tree_being_read] a0 == curtree.Tree
+//@   return@L1 [inside_the_reading_loop_the_function_only_leaves_with_an_error_and_no_tree] result0 == nil && result1 != nil
 //@   loop 1
 //@     invariant [one_unrooting_per_indexing] ghost(ncalls_UnRoot) - old(ghost(ncalls_UnRoot)) == ghost(ncalls_ReinitIndexes) - old(ghost(ncalls_ReinitIndexes))
+//@     step [every_accepted_tree_counts_for_one] next(nbtrees) == nbtrees + 1
+//@   loop 2
+//@     complete [all_iterations_no_early_exit]
+//@   loop 3
+//@     complete [all_iterations_no_early_exit]
+//@   loop 4
+//@     complete [all_iterations_no_early_exit]
+//@   loop 5
+//@     complete [all_iterations_no_early_exit]
+//@   loop 6
+//@     complete [all_iterations_no_early_exit]
 
 // sortNeighbors (property C05): the neighbours of a node are reordered together with their branches - slot i of the
 // scratch table takes the i-th neighbour *and* the i-th branch of the node, the table is permuted as a whole, and slot i
